@@ -1,7 +1,7 @@
 """C16 - the exported-object tree seen remotely is exactly what was exported."""
 import re
 
-from ..engine import Spec, assume, check, reached, HarnessError, notrace, concrete
+from ..engine import Spec, assume, check, reached, HarnessError, notrace, concrete, decode_choice, encode_choice
 from ..runner import Ob
 
 PROPERTY = 'C16'
@@ -16,8 +16,8 @@ EXPLANATION = (
     'descendants), GetManagedObjects (exactly the exported objects strictly beneath, each with all interfaces and readable '
     'properties). Every export / unexport must emit InterfacesAdded / InterfacesRemoved naming the path and interfaces. '
     'Operation selectors are finite: the solver contributes exhaustive coverage of the bounded history space.')
-BOUNDS = {'quick': 'pool of 6 paths (/, /a, /a/b, /a/bc, /a/b/c, /b); every history of <= 3 operations; queries at 7 paths x 3 kinds after each history',
-          'thorough': 'every history of <= 4 operations'}
+BOUNDS = {'quick': 'pool of 6 paths (/, /a, /a/b, /a/bc, /a/b/c, /b); every history of <= 4 operations; queries at 7 paths x 3 kinds after each history',
+          'thorough': 'every history of <= 5 operations'}
 ASSUMPTIONS = ['one object class (two interfaces, one readable, one write-only property) exported at different paths',
                'unexporting a path that is not exported is API misuse and skipped']
 STUBS = ['recording connection object (sendMessage)']
@@ -29,18 +29,18 @@ NOPS = 2 * len(POOL)
 
 def obligations(tier):
     obs = []
-    kmax = 3 if tier == 'quick' else 4
+    kmax = 4 if tier == 'quick' else 5
     for k in range(1, kmax + 1):
-        if k <= 2:
+        if k <= 3:
             prefixes = [()]
-        elif k == 3:
+        elif k == 4:
             prefixes = [(a,) for a in range(NOPS)]
         else:
             prefixes = [(a, b) for a in range(NOPS) for b in range(NOPS)]
         for pre in prefixes:
             obs.append(Ob('hist:k%d:%s' % (k, '-'.join(map(str, pre)) or 'all'), 'hist', {'k': k, 'pre': list(pre)},
-                          timeout=900, path_timeout=60, twin=(pre in ((), (0,), (0, 0))), functions=FUNCS,
-                          bounds='%d operations, %d fixed' % (k, len(pre)), weight=1.0 if k < 4 else 0.5))
+                          timeout=1800, path_timeout=60, twin=(pre in ((), (0,), (0, 0))), functions=FUNCS,
+                          bounds='%d operations, %d fixed' % (k, len(pre)), weight=1.0 if k < 5 else 0.5))
     return obs
 
 
@@ -106,12 +106,10 @@ def build(family, p):
         check(len(out) == 1, 'a query must get exactly one reply')
         return out[0]
 
-    def h(*ops):
-        for i, fixed in enumerate(pre):
-            assume(ops[i] == fixed)
-        for op in ops:
-            assume(0 <= op < NOPS)
-        ops = [concrete(op) for op in ops]      # fork per history; everything below is concrete
+    nfree = k - len(pre)
+
+    def h(code):
+        ops = list(pre) + decode_choice(code, [NOPS] * nfree)      # one path per history; the run below is concrete
         message.DBusMessage._nextSerial = 1
         with notrace():
             run(ops)
@@ -176,8 +174,5 @@ def build(family, p):
                       'GetManagedObjects on a path that is not exported must answer UnknownObject')
     h.__name__ = 'hist'
     base = [(2, 3, 4, 1), (1, 2, 8, 3), (0, 5, 6, 2), (4, 10, 4, 2), (3, 2, 9, 0)]
-    wit = []
-    for w in base:
-        w = tuple(pre) + w[len(pre):k] if len(pre) <= k else w[:k]
-        wit.append(tuple(w[:k]))
-    return Spec(h, [('o%d' % i, int) for i in range(k)], witnesses=wit)
+    wit = [(encode_choice(list(w[:nfree]), [NOPS] * nfree),) for w in base]
+    return Spec(h, [('code', int)], witnesses=wit)
